@@ -88,6 +88,7 @@ class Lockstep:
             args[fdef.args.kwarg.arg] = z3.Const("arg_" + fdef.args.kwarg.arg, V)
         for g in self.ctx.cur_globals:
             st.glob[g] = z3.Const(g + "!0", V)
+            st.conds.extend(self.ctx.type_facts("global:" + g, st.glob[g]))
         return args, st
 
     def run(self, real_def, spec_def):
